@@ -70,6 +70,8 @@ func renderStmts(sb *strings.Builder, ss []fStmt, indent string) {
 			fmt.Fprintf(sb, "%s%s %s %s\n", indent, s.lhs, s.op, s.rhs.wuffs())
 		case "probe":
 			fmt.Fprintf(sb, "%sassert false\n", indent)
+		case "call":
+			fmt.Fprintf(sb, "%s%s\n", indent, s.lhs)
 		case "if":
 			fmt.Fprintf(sb, "%sif %s %s %s {\n", indent, s.cl.wuffs(), s.cmp, s.cr.wuffs())
 			renderStmts(sb, s.then, indent+"\t")
@@ -85,6 +87,15 @@ func renderStmts(sb *strings.Builder, ss []fStmt, indent string) {
 const factsPrologue = `pub struct foo?(
 	f : base.u32[..= 100],
 )
+
+pri func foo.clobber!() {
+	this.f = 77
+}
+
+pri func foo.bump!(d: base.u32[..= 7]) base.u32 {
+	this.f = args.d
+	return 5
+}
 
 pri func foo.bar!(x: base.u32[..= 100], y: base.u32[..= 7]) {
 	var i : base.u32[..= 1000]
@@ -143,6 +154,15 @@ func spRun(ss []fStmt, st *spState, decls *[]string) (probe *spState, after *spS
 		switch s.kind {
 		case "probe":
 			return st.clone(), st
+		case "call":
+			// the impure callees of the prologue: clobber sets this.f = 77; bump(d: y) sets this.f = y and returns 5
+			switch s.lhs {
+			case "this.clobber!()":
+				st.vals["this.f"] = "77"
+			case "j = this.bump!(d: args.y)":
+				st.vals["this.f"] = st.vals["args.y"]
+				st.vals["j"] = "5"
+			}
 		case "assign":
 			r := s.rhs.smt(st)
 			switch s.op {
@@ -202,6 +222,8 @@ func factsPool() ([]fStmt, []fStmt) {
 		as("i", "=", f),
 		as("i", "=", fk(7)),
 		as("j", "-=", y),
+		{kind: "call", lhs: "this.clobber!()"},
+		{kind: "call", lhs: "j = this.bump!(d: args.y)"},
 	}
 	conds := []fStmt{
 		{kind: "if", cl: x, cmp: "<", cr: fk(50)},
@@ -210,6 +232,12 @@ func factsPool() ([]fStmt, []fStmt) {
 		{kind: "if", cl: j, cmp: ">=", cr: y},
 		{kind: "if", cl: i, cmp: "<=", cr: fk(3)},
 		{kind: "if", cl: f, cmp: "<>", cr: x},
+		// constant on the left
+		{kind: "if", cl: fk(50), cmp: ">=", cr: x},
+		{kind: "if", cl: fk(3), cmp: "<", cr: i},
+		{kind: "if", cl: fk(7), cmp: "<=", cr: j},
+		{kind: "if", cl: fk(5), cmp: ">", cr: y},
+		{kind: "if", cl: fk(60), cmp: "==", cr: f},
 	}
 	return simple, conds
 }
@@ -238,9 +266,9 @@ func factsPrograms(depth int, withIf bool) [][]fStmt {
 		out = append(out, append(append([]fStmt(nil), s...), probe))
 	}
 	if withIf {
-		pres := [][]fStmt{nil, {simple[0]}, {simple[1]}, {simple[16]}, {simple[0], simple[10]}, {simple[14]}}
-		bodies := [][]fStmt{{simple[2]}, {simple[4]}, {simple[5]}, {simple[7]}, {simple[9]}, {simple[11]}, {simple[12]}, {simple[8]}, {simple[15]}}
-		alts := []fStmt{simple[2], simple[6], simple[10], simple[16]}
+		pres := [][]fStmt{nil, {simple[0]}, {simple[1]}, {simple[16]}, {simple[0], simple[10]}, {simple[14]}, {simple[14], simple[18]}}
+		bodies := [][]fStmt{{simple[2]}, {simple[4]}, {simple[5]}, {simple[7]}, {simple[9]}, {simple[11]}, {simple[12]}, {simple[8]}, {simple[15]}, {simple[0]}, {simple[18]}, {simple[19]}}
+		alts := []fStmt{simple[2], simple[6], simple[10], simple[16], simple[0], simple[15]}
 		for _, pre := range pres {
 			for _, c := range conds {
 				for _, body := range bodies {
@@ -302,71 +330,82 @@ func runFacts(rc *runCtx) {
 		rc.broken = append(rc.broken, "wprobe facts output: malformed")
 		return
 	}
-	type job struct{ idx int }
 	var mu sync.Mutex
 	var wg sync.WaitGroup
 	sem := make(chan struct{}, rc.workers)
 	reached, nfacts, proved, skipped := 0, 0, 0, 0
-	falseFacts := map[string][]int{} // "fact text" class -> program indexes
+	falseFacts := map[string][]int{} // fact text -> program indexes
 	var firstWitness = map[string]string{}
+	names := []string{"args.x", "args.y", "this.f", "i", "j"}
+	smtName := map[string]string{"args.x": "cur_x", "args.y": "cur_y", "this.f": "cur_f", "i": "cur_i", "j": "cur_j"}
+	type item struct {
+		idx   int
+		facts []string
+		body  string // (push) ... (pop) fragment producing len(facts)+1 answers
+	}
+	var items []item
 	for idx := range progs {
 		if !results[idx].Reached {
 			continue
 		}
 		reached++
+		st := &spState{vals: map[string]string{"args.x": "x0", "args.y": "y0", "this.f": "f0", "i": "0", "j": "0"}}
+		var decls []string
+		ps, _ := spRun(progs[idx], st, &decls)
+		if ps == nil {
+			continue
+		}
+		var sb strings.Builder
+		sb.WriteString("(push 1)\n")
+		for _, c := range ps.pc {
+			sb.WriteString("(assert " + c + ")\n")
+		}
+		for _, n := range names {
+			fmt.Fprintf(&sb, "(define-fun %s () Int %s)\n", smtName[n], ps.vals[n])
+		}
+		it := item{idx: idx}
+		for _, fact := range results[idx].Facts {
+			vars := map[string]bool{}
+			f2 := fact
+			for _, n := range names {
+				f2 = strings.ReplaceAll(f2, n, smtName[n])
+			}
+			q, err := cmpToSMT(f2, vars)
+			if err != nil {
+				skipped++
+				continue
+			}
+			q = replaceIdent(q, "i", "cur_i")
+			q = replaceIdent(q, "j", "cur_j")
+			it.facts = append(it.facts, fact)
+			fmt.Fprintf(&sb, "(push 1)(assert (not %s))(check-sat)(pop 1)\n", q)
+		}
+		sb.WriteString("(check-sat)\n(pop 1)\n") // reachability of the probe (vacuity)
+		it.body = sb.String()
+		items = append(items, it)
+	}
+	const batch = 40
+	for b0 := 0; b0 < len(items); b0 += batch {
+		b1 := b0 + batch
+		if b1 > len(items) {
+			b1 = len(items)
+		}
+		chunk := items[b0:b1]
 		wg.Add(1)
 		sem <- struct{}{}
-		go func(idx int) {
+		go func(chunk []item) {
 			defer wg.Done()
 			defer func() { <-sem }()
-			st := &spState{vals: map[string]string{"args.x": "x0", "args.y": "y0", "this.f": "f0", "i": "0", "j": "0"}}
-			var decls []string
-			ps, _ := spRun(progs[idx], st, &decls)
-			if ps == nil {
-				return
-			}
 			var sb strings.Builder
 			sb.WriteString("(declare-const x0 Int)(declare-const y0 Int)(declare-const f0 Int)\n")
 			sb.WriteString("(assert (and (<= 0 x0) (<= x0 100) (<= 0 y0) (<= y0 7) (<= 0 f0) (<= f0 100)))\n")
-			for _, c := range ps.pc {
-				sb.WriteString("(assert " + c + ")\n")
+			want := 0
+			for _, it := range chunk {
+				sb.WriteString(it.body)
+				want += len(it.facts) + 1
 			}
-			// current values of the program variables
-			names := []string{"args.x", "args.y", "this.f", "i", "j"}
-			smtName := map[string]string{"args.x": "cur_x", "args.y": "cur_y", "this.f": "cur_f", "i": "cur_i", "j": "cur_j"}
-			for _, n := range names {
-				fmt.Fprintf(&sb, "(define-fun %s () Int %s)\n", smtName[n], ps.vals[n])
-			}
-			type q struct {
-				fact string
-				smt  string
-			}
-			var qs []q
-			for _, fact := range results[idx].Facts {
-				vars := map[string]bool{}
-				f2 := fact
-				for _, n := range names {
-					f2 = strings.ReplaceAll(f2, n, smtName[n])
-				}
-				// plain i / j after the qualified names were replaced
-				s, err := cmpToSMT(f2, vars)
-				if err != nil {
-					mu.Lock()
-					skipped++
-					mu.Unlock()
-					continue
-				}
-				s = replaceIdent(s, "i", "cur_i")
-				s = replaceIdent(s, "j", "cur_j")
-				qs = append(qs, q{fact, s})
-			}
-			for _, qq := range qs {
-				fmt.Fprintf(&sb, "(push)(assert (not %s))(check-sat)(pop)\n", qq.smt)
-			}
-			// reachability of the probe (vacuity)
-			sb.WriteString("(check-sat)\n")
-			_, zout := sym.RunScript(sym.Primary(), sb.String(), 60*time.Second)
-			lines := []string{}
+			_, zout := sym.RunScript(sym.Primary(), sb.String(), 120*time.Second)
+			var lines []string
 			for _, l := range strings.Split(zout, "\n") {
 				l = strings.TrimSpace(l)
 				if l == "sat" || l == "unsat" || l == "unknown" {
@@ -375,31 +414,34 @@ func runFacts(rc *runCtx) {
 			}
 			mu.Lock()
 			defer mu.Unlock()
-			rc.queries += len(qs) + 1
-			if len(lines) != len(qs)+1 {
-				rc.broken = append(rc.broken, fmt.Sprintf("facts program %d: solver output malformed: %s", idx, tail(zout, 200)))
+			rc.queries += want
+			if len(lines) != want {
+				rc.broken = append(rc.broken, fmt.Sprintf("facts batch: solver output malformed (%d answers, %d expected): %s", len(lines), want, tail(zout, 200)))
 				return
 			}
-			if lines[len(qs)] != "sat" {
-				// the probe is unreachable for every input: facts there are vacuous
-				return
-			}
-			for k, qq := range qs {
-				nfacts++
-				switch lines[k] {
-				case "unsat":
-					proved++
-				case "sat":
-					key := qq.fact
-					falseFacts[key] = append(falseFacts[key], idx)
-					if _, ok := firstWitness[key]; !ok {
-						firstWitness[key] = texts[idx]
+			k := 0
+			for _, it := range chunk {
+				ans := lines[k : k+len(it.facts)+1]
+				k += len(it.facts) + 1
+				if ans[len(it.facts)] != "sat" {
+					continue // the probe is unreachable for every input: facts there are vacuous
+				}
+				for f, fact := range it.facts {
+					nfacts++
+					switch ans[f] {
+					case "unsat":
+						proved++
+					case "sat":
+						falseFacts[fact] = append(falseFacts[fact], it.idx)
+						if _, ok := firstWitness[fact]; !ok {
+							firstWitness[fact] = texts[it.idx]
+						}
+					default:
+						rc.broken = append(rc.broken, fmt.Sprintf("facts program %d: solver unknown for fact %q", it.idx, fact))
 					}
-				default:
-					rc.broken = append(rc.broken, fmt.Sprintf("facts program %d: solver unknown for fact %q", idx, qq.fact))
 				}
 			}
-		}(idx)
+		}(chunk)
 	}
 	wg.Wait()
 	rc.states += reached
